@@ -16,10 +16,16 @@ Open Scope N_scope.
 Definition is_short (T : tables) (c : etree + cdata) : bool :=
   match c with inl e => e_name e =? name_short_name T | inr _ => false end.
 
+(* loop iterations an item costs its parent: a comment in front of an element is an event of its own *)
+Definition e_comment (e : etree) : option (list N) := match e with ENode _ _ _ _ cm => cm end.
+Definition cost (c : etree + cdata) : nat :=
+  match c with inl e => match e_comment e with Some _ => 2 | None => 1 end | inr _ => 1 end.
+Fixpoint lcost (l : list (etree + cdata)) : nat := match l with [] => O | c :: l' => (cost c + lcost l')%nat end.
+
 Fixpoint width (t : etree) : nat :=
   match t with
   | ENode _ _ _ content _ =>
-    Nat.max (List.length content)
+    Nat.max (lcost content)
       ((fix go (l : list (etree + cdata)) : nat :=
           match l with
           | [] => O
@@ -33,7 +39,7 @@ Fixpoint maxw (l : list (etree + cdata)) : nat :=
   | inl e :: l' => Nat.max (width e) (maxw l')
   | inr _ :: l' => maxw l'
   end.
-Lemma width_node n ty a c cm : width (ENode n ty a c cm) = Nat.max (List.length c) (maxw c).
+Lemma width_node n ty a c cm : width (ENode n ty a c cm) = Nat.max (lcost c) (maxw c).
 Proof. reflexivity. Qed.
 Lemma maxw_in l e : In (inl e) l -> (width e <= maxw l)%nat.
 Proof.
@@ -130,13 +136,18 @@ Definition ShapeOk (mode : N) (content : list (etree + cdata)) : Prop :=
   else if mode =? MMixed then forall a b pre post, content = pre ++ a :: b :: post -> is_text a = true -> is_text b = false
   else Forall (fun c => is_text c = false) content.
 
+(* a comment that is read back: the lexer finds its end (CommentOk) and the stored text is the lossy UTF-8 conversion *)
+Definition CommentsOk (cm : option (list N)) : Prop :=
+  match cm with None => True | Some c => CommentOk c /\ utf8_valid c = true end.
+
 Inductive Canon : etree -> Prop :=
-| canon_node name ty attrs content nm mode named :
+| canon_node name ty attrs content cm nm mode named :
+    CommentsOk cm ->
     ElemNameOk name nm -> AttrsOk T tab_at tab_en check_fn float_fmt float_parse ver ty attrs ->
     content_mode T ty = Val mode -> ShapeOk mode content ->
     ChildrenOk ty mode [] [] content ->
     is_named_in_version T ty ver = Val named -> (named = true -> existsb (is_short T) content = true) ->
-    Canon (ENode name ty attrs content None)
+    Canon (ENode name ty attrs content cm)
 with ChildrenOk : etype -> N -> list N -> list (etree + cdata) -> list (etree + cdata) -> Prop :=
 | ck_nil ty mode prev pre : ChildrenOk ty mode prev pre []
 | ck_elem ty mode prev pre c rest idx :
@@ -149,10 +160,10 @@ with ChildrenOk : etype -> N -> list N -> list (etree + cdata) -> list (etree + 
 
 (* ---------- the checks of parse_element pass silently on canonical data ---------- *)
 Definition same_core (st st' : pstate) : Prop :=
-  p_lex st' = p_lex st /\ p_version st' = p_version st /\ p_warnings st' = p_warnings st.
+  p_lex st' = p_lex st /\ p_version st' = p_version st /\ p_warnings st' = p_warnings st /\ p_standalone st' = p_standalone st.
 Lemma same_core_refl st : same_core st st.                Proof. repeat split. Qed.
 Lemma same_core_trans a b c : same_core a b -> same_core b c -> same_core a c.
-Proof. intros (A1 & A2 & A3) (B1 & B2 & B3). repeat split; congruence. Qed.
+Proof. intros (A1 & A2 & A3 & A4) (B1 & B2 & B3 & B4). repeat split; congruence. Qed.
 
 Lemma find_elem_ok name ty st r : find_sub_element T ty name (p_version st) = Val (Some r) ->
   find_element_in_spec_checked strict T name ty st = Val (Ret r st).
@@ -189,21 +200,21 @@ Qed.
 (* ---------- the lexer inside the parser state ---------- *)
 Definition at_rest (st : pstate) (bytes : list N) : Prop := l_rest (p_lex st) = bytes /\ l_deferred (p_lex st) = None.
 Definition adv (st st' : pstate) (tail : list N) : Prop :=
-  at_rest st' tail /\ p_version st' = p_version st /\ p_warnings st' = p_warnings st.
+  at_rest st' tail /\ p_version st' = p_version st /\ p_warnings st' = p_warnings st /\ p_standalone st' = p_standalone st.
 
 Lemma adv_core st st1 st2 tail : adv st st1 tail -> same_core st1 st2 -> adv st st2 tail.
 Proof.
-  intros ((A1 & A2) & A3 & A4) (B1 & B2 & B3). unfold adv, at_rest. rewrite B1, B2, B3. auto.
+  intros ((A1 & A2) & A3 & A4 & A5) (B1 & B2 & B3 & B4). unfold adv, at_rest. rewrite B1, B2, B3, B4. auto.
 Qed.
 Lemma adv_trans st st1 st2 t1 t2 : adv st st1 t1 -> adv st1 st2 t2 -> adv st st2 t2.
-Proof. intros (A1 & A2 & A3) (B1 & B2 & B3). unfold adv. split; [exact B1|]. split; congruence. Qed.
+Proof. intros (A1 & A2 & A3 & A4) (B1 & B2 & B3 & B4). unfold adv. split; [exact B1|]. repeat split; congruence. Qed.
 Lemma core_adv st st1 st2 tail : same_core st st1 -> adv st1 st2 tail -> adv st st2 tail.
-Proof. intros (A1 & A2 & A3) (B1 & B2 & B3). unfold adv. split; [exact B1|]. split; congruence. Qed.
+Proof. intros (A1 & A2 & A3 & A4) (B1 & B2 & B3 & B4). unfold adv. split; [exact B1|]. repeat split; congruence. Qed.
 
 Lemma pnext_of_lex st ws X ev tail d : at_rest st (ws ++ 60 :: X) -> blanks ws ->
   (forall f line', exists l1 l2, lex_next (S f) (mk (60 :: X) line' None) = Val (LOk l1 ev (mk tail l2 d))) ->
   exists st', pnext st = Val (Ret ev st') /\ l_rest (p_lex st') = tail /\ l_deferred (p_lex st') = d /\
-              p_version st' = p_version st /\ p_warnings st' = p_warnings st.
+              p_version st' = p_version st /\ p_warnings st' = p_warnings st /\ p_standalone st' = p_standalone st.
 Proof.
   intros [R D] WS H. unfold pnext, next, lex_fuel. destruct (p_lex st) as [rest line dd] eqn:EL. cbn [l_rest l_deferred] in *. subst rest dd.
   assert (G : exists l1 l2, lex_next (S (List.length (ws ++ 60 :: X))) (mk (ws ++ 60 :: X) line None) = Val (LOk l1 ev (mk tail l2 d))).
@@ -249,14 +260,14 @@ Lemma set_cur_rest st n bytes : at_rest st bytes -> at_rest (set_cur st n) bytes
 Proof. exact (fun H => H). Qed.
 
 (* a text item *)
-Lemma text_step (rec : recT) k name ty attrs comment pos pre prev snf path st v vb X mode cs isr :
+Lemma text_step (rec : recT) k name ty attrs comment pos pre prev snf stored path st v vb X mode cs isr :
   chardata_spec T ty = Val (Some cs) -> is_ref T ty = Val isr ->
   ValOk tab_en check_fn float_fmt float_parse ver cs v -> SCD v = Val vb ->
   forallb markup_free vb = true -> forallb is_ws vb = false ->
   content_mode T ty = Val mode -> (mode = MCharacters -> pre = []) ->
   at_rest st (vb ++ 60 :: X) -> p_version st = ver ->
-  exists st', PL rec (S k) name ty attrs comment pos pre prev snf None path st
-              = PL rec k name ty attrs comment pos (pre ++ [inr v]) prev snf None path st' /\ adv st st' (60 :: X).
+  exists st', PL rec (S k) name ty attrs comment pos pre prev snf stored path st
+              = PL rec k name ty attrs comment pos (pre ++ [inr v]) prev snf stored path st' /\ adv st st' (60 :: X).
 Proof.
   intros CS IR VO SC MF NW CM PRE AR PV.
   assert (NE : vb <> []) by (intros ->; discriminate NW).
@@ -308,10 +319,10 @@ Proof.
   rewrite G. reflexivity.
 Qed.
 
-Lemma end_step (rec : recT) k name ty attrs comment pos content prev snf path st ws nm tail named :
+Lemma end_step (rec : recT) k name ty attrs comment pos content prev snf stored path st ws nm tail named :
   ElemNameOk name nm -> is_named_in_version T ty ver = Val named -> (named = true -> snf = true) ->
   blanks ws -> at_rest st (ws ++ [60; 47] ++ nm ++ [62] ++ tail) -> p_version st = ver ->
-  exists st', PL rec (S k) name ty attrs comment pos content prev snf None path st
+  exists st', PL rec (S k) name ty attrs comment pos content prev snf stored path st
               = Val (Ret (ENode name ty attrs content comment) st') /\ adv st st' tail.
 Proof.
   intros (TS & CN & FB) NV SN WS AR PV. destruct (clean_name_props nm CN) as (_ & FN).
@@ -324,10 +335,10 @@ Proof.
   exists st1. split; [reflexivity|]. unfold adv, at_rest. cbn [p_warnings set_cur] in W1. auto.
 Qed.
 
-Lemma deferred_end_step (rec : recT) k name ty attrs comment pos content prev snf path st nm named :
+Lemma deferred_end_step (rec : recT) k name ty attrs comment pos content prev snf stored path st nm named :
   ElemNameOk name nm -> is_named_in_version T ty ver = Val named -> (named = true -> snf = true) ->
   l_deferred (p_lex st) = Some nm -> p_version st = ver ->
-  exists st', PL rec (S k) name ty attrs comment pos content prev snf None path st
+  exists st', PL rec (S k) name ty attrs comment pos content prev snf stored path st
               = Val (Ret (ENode name ty attrs content comment) st') /\ adv st st' (l_rest (p_lex st)).
 Proof.
   intros (TS & CN & FB) NV SN D PV.
@@ -364,14 +375,32 @@ Proof.
   - exists ppath, st5. split; [reflexivity|apply same_core_refl].
 Qed.
 
+(* a comment: stored for the next element *)
+Lemma comment_step (rec : recT) k name ty attrs comment pos content prev snf stored path st ws c X :
+  CommentOk c -> utf8_valid c = true -> blanks ws -> at_rest st (ws ++ comment_text c ++ 62 :: X) ->
+  exists st', PL rec (S k) name ty attrs comment pos content prev snf stored path st
+              = PL rec k name ty attrs comment pos content prev snf (Some c) path st' /\ adv st st' X.
+Proof.
+  intros CO UV WS AR.
+  destruct (pnext_of_lex (set_cur st name) ws (33 :: 45 :: 45 :: c ++ [45; 45] ++ 62 :: X) (EvComment c) X None) as (st1 & E1 & R1 & D1 & V1 & W1 & S1).
+  { unfold at_rest in *. cbn [p_lex set_cur]. destruct AR as [A1 A2]. split; [|exact A2]. rewrite A1. unfold comment_text.
+    cbn [app]. rewrite <- !app_assoc. reflexivity. }
+  { exact WS. }
+  { intros f line'. do 2 eexists.
+    pose proof (lex_comment f c X line' CO) as G. unfold comment_text in G. cbn [app] in G. rewrite <- !app_assoc in G. cbn [app] in G.
+    exact G. }
+  cbn [pe_loop]. rewrite (mbind_ret_step _ _ st tt (set_cur st name) eq_refl). rewrite (mbind_ret_step _ _ _ _ _ E1).
+  rewrite (utf8_lossy_valid c UV). exists st1. split; [reflexivity|]. unfold adv, at_rest. cbn in V1, W1, S1. auto.
+Qed.
+
 (* from the begin event to the recursive call *)
-Lemma open_gen (rec : recT) k pname pty pattrs pcomment ppos pcontent pidx psnf ppath st st1 name nm ty attrs ats idx :
+Lemma open_gen (rec : recT) k pname pty pattrs pcomment ppos pcontent pidx psnf stored ppath st st1 name nm ty attrs ats idx :
   pnext (set_cur st pname) = Val (Ret (EvBegin nm (skipn 1 ats)) st1) -> p_version st1 = ver ->
   ElemNameOk name nm -> AttrsOk T tab_at tab_en check_fn float_fmt float_parse ver ty attrs -> SAT attrs = Val ats ->
   find_sub_element T pty name ver = Val (Some (ty, idx)) -> ConflictOk pty pidx idx -> MultOk pty idx name pcontent ->
   exists st4,
-    PL rec (S k) pname pty pattrs pcomment ppos pcontent pidx psnf None ppath st
-    = mbind (rec name ty attrs None ppath (List.length pcontent :: ppos))
+    PL rec (S k) pname pty pattrs pcomment ppos pcontent pidx psnf stored ppath st
+    = mbind (rec name ty attrs stored ppath (List.length pcontent :: ppos))
             (after_child rec k pname pty pattrs pcomment ppos pcontent idx psnf ppath name) st4
     /\ same_core st1 st4.
 Proof.
@@ -441,28 +470,33 @@ Definition StepOK (f lf d : nat) : Prop :=
     find_sub_element T pty (e_name c) ver = Val (Some (e_type c, idx)) -> ConflictOk pty pidx idx -> MultOk pty idx (e_name c) pcontent ->
     at_rest st (bytes ++ tail) -> p_version st = ver ->
     exists path' st',
-      PL (PE f lf) (S k) pname pty pattrs pcomment ppos pcontent pidx psnf None ppath st
+      PL (PE f lf) (cost (inl c) + k) pname pty pattrs pcomment ppos pcontent pidx psnf None ppath st
       = PL (PE f lf) k pname pty pattrs pcomment ppos (pcontent ++ [inl c]) idx
            (if e_name c =? name_short_name T then true else psnf) None path' st'
       /\ adv st st' tail.
 
 Lemma canon_inline_starts60 c indent bytes : Canon c -> SER c indent true = Val bytes -> starts60 bytes.
 Proof.
-  intros CA H. destruct CA as [name ty attrs content nm mode named (TS & _) _ _ _ _ _ _]. rewrite ser_elem_eq in H.
+  intros CA H. destruct CA as [name ty attrs content cm nm mode named _ (TS & _) _ _ _ _ _ _]. rewrite ser_elem_eq in H.
   rewrite TS in H. cbn [unwrap bind] in H. destruct (SAT attrs) as [ats| |]; try discriminate H. cbn [bind] in H.
-  cbv zeta in H. cbn [comment_part app] in H.
+  cbv zeta in H.
+  assert (PRE : starts60 ((comment_part cm indent true ++ []) ++ [60])).
+  { destruct cm as [c0|]; cbn [comment_part app]; eexists; reflexivity. }
+  assert (G : forall X, starts60 ((comment_part cm indent true ++ []) ++ [60] ++ X)).
+  { intros X. destruct PRE as (Y & EY). rewrite app_assoc, EY. eexists. reflexivity. }
   destruct content as [|first rest].
-  - injection H as <-. eexists. reflexivity.
+  - injection H as <-. apply G.
   - destruct (content_mode T ty) as [m| |]; try discriminate H. cbn [bind] in H.
     destruct (m =? MCharacters).
-    + destruct (match first with inr cd => SCD cd | inl _ => Val [] end); try discriminate H. injection H as <-. eexists; reflexivity.
+    + destruct (match first with inr cd => SCD cd | inl _ => Val [] end); try discriminate H. injection H as <-.
+      rewrite <- !app_assoc. rewrite app_assoc. apply G.
     + destruct (m =? MMixed).
-      * destruct (ser_items _ _ _); try discriminate H. injection H as <-. eexists; reflexivity.
-      * destruct (ser_subs _ _); try discriminate H. injection H as <-. eexists; reflexivity.
+      * destruct (ser_items _ _ _); try discriminate H. injection H as <-. rewrite <- !app_assoc. rewrite app_assoc. apply G.
+      * destruct (ser_subs _ _); try discriminate H. injection H as <-. rewrite <- !app_assoc. rewrite app_assoc. apply G.
 Qed.
 
 Lemma children_loop f lf d : StepOK f lf d ->
-  forall cname cty cattrs nm mode named pos indent inline wsc,
+  forall cname cty cattrs ccm nm mode named pos indent inline wsc,
   ElemNameOk cname nm -> content_mode T cty = Val mode -> is_named_in_version T cty ver = Val named -> blanks wsc ->
   forall l pre prev snf path st k bs tail,
     ChildrenOk cty mode prev pre l ->
@@ -470,18 +504,18 @@ Lemma children_loop f lf d : StepOK f lf d ->
     ItemsSer indent inline l bs ->
     (Forall (fun c => is_text c = false) l \/ (inline = true /\ wsc = [] /\ no_adjacent l)) ->
     at_rest st (bs ++ closing wsc nm ++ tail) -> p_version st = ver ->
-    (List.length l < k)%nat -> snf = existsb (is_short T) pre ->
+    (lcost l < k)%nat -> snf = existsb (is_short T) pre ->
     (named = true -> existsb (is_short T) (pre ++ l) = true) ->
-    exists st', PL (PE f lf) k cname cty cattrs None pos pre prev snf None path st
-                = Val (Ret (ENode cname cty cattrs (pre ++ l) None) st') /\ adv st st' tail.
+    exists st', PL (PE f lf) k cname cty cattrs ccm pos pre prev snf None path st
+                = Val (Ret (ENode cname cty cattrs (pre ++ l) ccm) st') /\ adv st st' tail.
 Proof.
-  intros STEP cname cty cattrs nm mode named pos indent inline wsc EN CM NV WSC.
+  intros STEP cname cty cattrs ccm nm mode named pos indent inline wsc EN CM NV WSC.
   induction l as [|item l IH]; intros pre prev snf path st k bs tail CK DW IS TX AR PV LK SNF NAMED.
-  - inversion IS; subst. cbn [app] in AR. rewrite app_nil_r. destruct k as [|k]; [lia|].
+  - inversion IS; subst. cbn [app] in AR. rewrite app_nil_r. destruct k as [|k]; [cbn in LK; lia|].
     rewrite closing_app in AR.
-    apply (end_step (PE f lf) k cname cty cattrs None pos pre prev (existsb (is_short T) pre) path st wsc nm tail named EN NV
+    apply (end_step (PE f lf) k cname cty cattrs ccm pos pre prev (existsb (is_short T) pre) None path st wsc nm tail named EN NV
              ltac:(rewrite app_nil_r in NAMED; exact NAMED) WSC AR PV).
-  - destruct k as [|k]; [cbn in LK; lia|].
+  - cbn [lcost] in LK.
     assert (TX' : Forall (fun c => is_text c = false) l \/ (inline = true /\ wsc = [] /\ no_adjacent l)).
     { destruct TX as [F|(A & B & C)]; [left; inversion F; assumption|right; split; [exact A|split; [exact B|eapply no_adjacent_tail; exact C]]]. }
     assert (DW' : forall c, In (inl c) l -> (depth c <= d)%nat /\ (width c < lf)%nat) by (intros c H; apply DW; right; exact H).
@@ -489,19 +523,22 @@ Proof.
     + (* a child element *)
       inversion IS as [|c0 l0 b bs' SB IS'|]; subst. rewrite <- app_assoc in AR.
       destruct (DW c (or_introl eq_refl)) as [DC WC].
-      destruct (STEP c CA DC WC indent inline b SB k cname cty cattrs None pos pre prev (existsb (is_short T) pre) path st
+      replace k with (cost (inl c) + (k - cost (inl c)))%nat by lia.
+      destruct (STEP c CA DC WC indent inline b SB (k - cost (inl c))%nat cname cty cattrs ccm pos pre prev (existsb (is_short T) pre) path st
                   (bs' ++ closing wsc nm ++ tail) idx FS CO MO AR PV)
         as (path' & st1 & E1 & A1).
       rewrite E1.
-      destruct (IH (pre ++ [inl c]) idx (if e_name c =? name_short_name T then true else existsb (is_short T) pre) path' st1 k bs' tail
+      destruct (IH (pre ++ [inl c]) idx (if e_name c =? name_short_name T then true else existsb (is_short T) pre) path' st1
+                  (k - cost (inl c))%nat bs' tail
                   CK' DW' IS' TX' ltac:(destruct A1 as (A & _); exact A) ltac:(destruct A1 as (_ & V & _); congruence)
-                  ltac:(cbn [List.length] in LK; lia)
+                  ltac:(lia)
                   ltac:(rewrite existsb_app; cbn [existsb is_short]; rewrite orb_false_r; destruct (e_name c =? name_short_name T);
                         [rewrite orb_true_r|rewrite orb_false_r]; reflexivity)
                   ltac:(rewrite <- app_assoc; exact NAMED))
         as (st2 & E2 & A2).
       exists st2. rewrite E2, <- app_assoc. split; [reflexivity|]. eapply adv_trans; eassumption.
     + (* a text item *)
+      cbn [cost] in LK. destruct k as [|k]; [lia|].
       inversion IS as [| |v0 l0 vb bs' SV IS']; subst. rewrite <- app_assoc in AR.
       destruct TO as (cs & vb' & isr & CS & IR & VO & SV' & MF & NW). rewrite SV in SV'. injection SV' as <-.
       assert (N60 : starts60 (bs' ++ closing wsc nm ++ tail)).
@@ -512,12 +549,12 @@ Proof.
           eexists. reflexivity.
         - specialize (NA (inr v) (inr v1) [] l1 eq_refl eq_refl). discriminate NA. }
       destruct N60 as (X & EX). rewrite EX in AR.
-      destruct (text_step (PE f lf) k cname cty cattrs None pos pre prev (existsb (is_short T) pre) path st v vb X mode cs isr
+      destruct (text_step (PE f lf) k cname cty cattrs ccm pos pre prev (existsb (is_short T) pre) None path st v vb X mode cs isr
                   CS IR VO SV MF NW CM PRE AR PV) as (st1 & E1 & A1).
       rewrite E1.
       destruct (IH (pre ++ [inr v]) prev (existsb (is_short T) pre) path st1 k bs' tail
                   CK' DW' IS' TX' ltac:(destruct A1 as (A & _); rewrite <- EX in A; exact A)
-                  ltac:(destruct A1 as (_ & V & _); congruence) ltac:(cbn [List.length] in LK; lia)
+                  ltac:(destruct A1 as (_ & V & _); congruence) ltac:(lia)
                   ltac:(rewrite existsb_app; cbn [existsb is_short]; rewrite !orb_false_r; reflexivity)
                   ltac:(rewrite <- app_assoc; exact NAMED))
         as (st2 & E2 & A2).
@@ -548,7 +585,7 @@ Proof.
   induction d as [|d IH]; intros f lf DF c CA DC WC indent inline bytes SB k pname pty pattrs pcomment ppos pcontent pidx psnf ppath st tail idx FS CO MO AR PV.
   { destruct c. rewrite depth_node in DC. lia. }
   destruct f as [|f]; [lia|].
-  destruct CA as [name ty attrs content nm mode named EN AO CM SH CK NV NAMED].
+  destruct CA as [name ty attrs content cm nm mode named CMO EN AO CM SH CK NV NAMED].
   cbn [e_name e_type] in *. rewrite depth_node in DC. rewrite width_node in WC.
   destruct EN as (TS & CN & FB).
   destruct (clean_name_props nm CN) as (NE & FN).
@@ -558,35 +595,50 @@ Proof.
   destruct AO as [AF AREQ]. pose proof (conj AF AREQ) as AO.
   destruct (ser_attrs_total T tab_at tab_en check_fn float_fmt float_parse ver ty attrs AF) as (ats & SA & ASH & _).
   destruct (ser_attrs_bytes T tab_at tab_en check_fn float_fmt float_parse ver ty attrs ats AF SA) as (A62 & ALAST).
-  rewrite ser_elem_eq, TS, SA in SB. cbn [unwrap bind] in SB. cbv zeta in SB. cbn [comment_part app] in SB.
+  rewrite ser_elem_eq, TS, SA in SB. cbn [unwrap bind] in SB. cbv zeta in SB.
   set (ws := if inline then [] else newline_indent indent) in *.
   assert (WS : blanks ws) by apply blanks_indent.
   assert (INNER : Forall (fun x => x <> 62) (nm ++ ats)) by (apply Forall_app; auto).
   assert (SPLIT : split_tag (nm ++ ats) = (nm, skipn 1 ats)) by (apply split_tag_name; assumption).
   assert (ENM' : nm ++ ats = c1 :: (tl ++ ats)) by (rewrite ENM; reflexivity).
+  (* the comment, if any, is one event of the parent loop *)
+  assert (CMT : forall rest_bytes, at_rest st ((comment_part cm indent inline ++ ws) ++ rest_bytes) ->
+            exists st0, PL (PE (S f) lf) (cost (inl (ENode name ty attrs content cm)) + k) pname pty pattrs pcomment ppos pcontent pidx psnf None ppath st
+                        = PL (PE (S f) lf) (S k) pname pty pattrs pcomment ppos pcontent pidx psnf cm ppath st0
+                        /\ adv st st0 (ws ++ rest_bytes)).
+  { intros rest_bytes AR0. destruct cm as [c0|]; cbn [cost e_comment comment_part app] in *.
+    - destruct CMO as [CO0 UV0].
+      destruct (comment_step (PE (S f) lf) (S k) pname pty pattrs pcomment ppos pcontent pidx psnf None ppath st ws c0 (ws ++ rest_bytes) CO0 UV0 WS)
+        as (st0 & E0 & A0).
+      { fold ws in AR0. unfold comment_text. norm_in AR0. norm_goal. exact AR0. }
+      exists st0. split; [exact E0|exact A0].
+    - exists st. split; [reflexivity|]. unfold adv. split; [exact AR0|auto]. }
   destruct content as [|first rest].
   - (* <nm ats/> *)
-    injection SB as <-. norm_in AR.
-    assert (AR' : at_rest st (ws ++ 60 :: (nm ++ ats) ++ 47 :: 62 :: tail)).
-    { norm_goal. exact AR. }
-    destruct (pnext_of_lex (set_cur st pname) ws ((nm ++ ats) ++ 47 :: 62 :: tail) (EvBegin nm (skipn 1 ats)) tail (Some nm)
-                (set_cur_rest _ _ _ AR') WS) as (st1 & E1 & R1 & D1 & V1 & W1).
+    injection SB as <-.
+    destruct (CMT ([60] ++ nm ++ ats ++ [47; 62] ++ tail)) as (st0 & E0 & A0).
+    { norm_in AR. norm_goal. exact AR. }
+    rewrite E0. destruct A0 as (AR0 & PV0 & PW0 & PS0).
+    assert (AR' : at_rest st0 (ws ++ 60 :: (nm ++ ats) ++ 47 :: 62 :: tail)).
+    { norm_in AR0. norm_goal. exact AR0. }
+    destruct (pnext_of_lex (set_cur st0 pname) ws ((nm ++ ats) ++ 47 :: 62 :: tail) (EvBegin nm (skipn 1 ats)) tail (Some nm)
+                (set_cur_rest _ _ _ AR') WS) as (st1 & E1 & R1 & D1 & V1 & W1 & S1).
     { intros f0 line'. do 2 eexists.
       rewrite (lex_empty_tag f0 (nm ++ ats) tail line' c1 (tl ++ ats) ENM' H47 H63 H33 INNER). rewrite SPLIT. reflexivity. }
-    cbn [p_version p_warnings set_cur] in V1, W1.
-    destruct (open_gen (PE (S f) lf) k pname pty pattrs pcomment ppos pcontent pidx psnf ppath st st1 name nm ty attrs ats idx
+    cbn [p_version p_warnings p_standalone set_cur] in V1, W1, S1.
+    destruct (open_gen (PE (S f) lf) k pname pty pattrs pcomment ppos pcontent pidx psnf cm ppath st0 st1 name nm ty attrs ats idx
                 E1 ltac:(congruence) (conj TS (conj CN FB)) AO SA FS CO MO) as (st4 & E4 & C4).
     rewrite E4. unfold mbind at 1. rewrite PE_S.
-    destruct C4 as (C4a & C4b & C4c).
+    destruct C4 as (C4a & C4b & C4c & C4d).
     destruct lf as [|lf']; [cbn in WC; lia|].
-    destruct (deferred_end_step (PE f (S lf')) lf' name ty attrs None (List.length pcontent :: ppos) [] [] false ppath st4 nm named
+    destruct (deferred_end_step (PE f (S lf')) lf' name ty attrs cm (List.length pcontent :: ppos) [] [] false None ppath st4 nm named
                 (conj TS (conj CN FB)) NV ltac:(intros Hn; specialize (NAMED Hn); discriminate NAMED)
                 ltac:(rewrite C4a; exact D1) ltac:(congruence)) as (st5 & E5 & A5).
     rewrite E5.
     destruct (after_child_ok (PE (S f) (S lf')) k pname pty pattrs pcomment ppos pcontent idx psnf ppath name
-                (ENode name ty attrs [] None) st5) as (path' & st6 & E6 & C6).
+                (ENode name ty attrs [] cm) st5) as (path' & st6 & E6 & C6).
     rewrite E6. exists path', st6. split; [reflexivity|].
-    eapply adv_core; [|exact C6]. destruct A5 as ((A5a & A5b) & A5c & A5d). rewrite C4a, R1 in A5a.
+    eapply adv_core; [|exact C6]. destruct A5 as ((A5a & A5b) & A5c & A5d & A5e). rewrite C4a, R1 in A5a.
     unfold adv, at_rest. repeat split; congruence.
   - (* <nm ats> content </nm> *)
     remember (first :: rest) as content eqn:EC.
@@ -597,24 +649,27 @@ Proof.
       - rewrite last_app_ne by discriminate. rewrite ALAST by discriminate. discriminate. }
     assert (BODY : forall body wsc indent' inline', blanks wsc -> ItemsSer indent' inline' content body ->
               (Forall (fun c => is_text c = false) content \/ (inline' = true /\ wsc = [] /\ no_adjacent content)) ->
-              bytes = ws ++ [60] ++ nm ++ ats ++ [62] ++ body ++ closing wsc nm ->
+              bytes = (comment_part cm indent inline ++ ws) ++ [60] ++ nm ++ ats ++ [62] ++ body ++ closing wsc nm ->
               exists path' st',
-                PL (PE (S f) lf) (S k) pname pty pattrs pcomment ppos pcontent pidx psnf None ppath st
-                = PL (PE (S f) lf) k pname pty pattrs pcomment ppos (pcontent ++ [inl (ENode name ty attrs content None)]) idx
+                PL (PE (S f) lf) (cost (inl (ENode name ty attrs content cm)) + k) pname pty pattrs pcomment ppos pcontent pidx psnf None ppath st
+                = PL (PE (S f) lf) k pname pty pattrs pcomment ppos (pcontent ++ [inl (ENode name ty attrs content cm)]) idx
                      (if name =? name_short_name T then true else psnf) None path' st' /\ adv st st' tail).
-    { intros body wsc indent' inline' WSC IS TX EB. subst bytes. norm_in AR.
-      assert (AR' : at_rest st (ws ++ 60 :: (nm ++ ats) ++ 62 :: body ++ closing wsc nm ++ tail)).
-      { norm_goal. exact AR. }
-      destruct (pnext_of_lex (set_cur st pname) ws ((nm ++ ats) ++ 62 :: body ++ closing wsc nm ++ tail) (EvBegin nm (skipn 1 ats))
-                  (body ++ closing wsc nm ++ tail) None (set_cur_rest _ _ _ AR') WS) as (st1 & E1 & R1 & D1 & V1 & W1).
+    { intros body wsc indent' inline' WSC IS TX EB. subst bytes.
+      destruct (CMT ([60] ++ nm ++ ats ++ [62] ++ body ++ closing wsc nm ++ tail)) as (st0 & E0 & A0).
+      { norm_in AR. norm_goal. exact AR. }
+      rewrite E0. destruct A0 as (AR0 & PV0 & PW0 & PS0).
+      assert (AR' : at_rest st0 (ws ++ 60 :: (nm ++ ats) ++ 62 :: body ++ closing wsc nm ++ tail)).
+      { norm_in AR0. norm_goal. exact AR0. }
+      destruct (pnext_of_lex (set_cur st0 pname) ws ((nm ++ ats) ++ 62 :: body ++ closing wsc nm ++ tail) (EvBegin nm (skipn 1 ats))
+                  (body ++ closing wsc nm ++ tail) None (set_cur_rest _ _ _ AR') WS) as (st1 & E1 & R1 & D1 & V1 & W1 & S1).
       { intros f0 line'. do 2 eexists.
         rewrite (lex_begin_tag f0 (nm ++ ats) (body ++ closing wsc nm ++ tail) line' c1 (tl ++ ats) ENM' H47 H63 H33 INNER LASTI).
         rewrite SPLIT. reflexivity. }
-      cbn [p_version p_warnings set_cur] in V1, W1.
-      destruct (open_gen (PE (S f) lf) k pname pty pattrs pcomment ppos pcontent pidx psnf ppath st st1 name nm ty attrs ats idx
-                  E1 ltac:(congruence) (conj TS (conj CN FB)) AO SA FS CO MO) as (st4 & E4 & (C4a & C4b & C4c)).
+      cbn [p_version p_warnings p_standalone set_cur] in V1, W1, S1.
+      destruct (open_gen (PE (S f) lf) k pname pty pattrs pcomment ppos pcontent pidx psnf cm ppath st0 st1 name nm ty attrs ats idx
+                  E1 ltac:(congruence) (conj TS (conj CN FB)) AO SA FS CO MO) as (st4 & E4 & (C4a & C4b & C4c & C4d)).
       rewrite E4. unfold mbind at 1. rewrite PE_S.
-      destruct (children_loop f lf d (IH f lf ltac:(lia)) name ty attrs nm mode named (List.length pcontent :: ppos) indent' inline' wsc
+      destruct (children_loop f lf d (IH f lf ltac:(lia)) name ty attrs cm nm mode named (List.length pcontent :: ppos) indent' inline' wsc
                   (conj TS (conj CN FB)) CM NV WSC content [] [] false ppath st4 lf body tail CK) as (st5 & E5 & A5).
       { intros c0 HIn. split; [pose proof (maxd_in _ _ HIn); lia|pose proof (maxw_in _ _ HIn); lia]. }
       { exact IS. }
@@ -626,9 +681,9 @@ Proof.
       { exact NAMED. }
       cbn [app] in E5. rewrite E5.
       destruct (after_child_ok (PE (S f) lf) k pname pty pattrs pcomment ppos pcontent idx psnf ppath name
-                  (ENode name ty attrs content None) st5) as (path' & st6 & E6 & C6).
+                  (ENode name ty attrs content cm) st5) as (path' & st6 & E6 & C6).
       rewrite E6. exists path', st6. split; [reflexivity|].
-      eapply adv_core; [|exact C6]. destruct A5 as (A5a & A5b & A5c). unfold adv. split; [exact A5a|]. split; congruence. }
+      eapply adv_core; [|exact C6]. destruct A5 as (A5a & A5b & A5c & A5d). unfold adv. split; [exact A5a|]. repeat split; congruence. }
     rewrite CM in SB. cbn [bind] in SB. unfold ShapeOk in SH.
     destruct (mode =? MCharacters) eqn:MC.
     + (* one value *)
@@ -653,17 +708,17 @@ Proof.
 Qed.
 
 (* ---------- the shape of a serialized element, and its size ---------- *)
-Lemma ser_shape name ty attrs content nm mode ats indent inline bytes :
+Lemma ser_shape name ty attrs content cm nm mode ats indent inline bytes :
   to_str tab_el name = Some nm -> SAT attrs = Val ats -> content_mode T ty = Val mode -> ShapeOk mode content ->
-  SER (ENode name ty attrs content None) indent inline = Val bytes ->
-  let ws := if inline then @nil N else newline_indent indent in
+  SER (ENode name ty attrs content cm) indent inline = Val bytes ->
+  let ws := comment_part cm indent inline ++ (if inline then @nil N else newline_indent indent) in
   (content = [] /\ bytes = ws ++ [60] ++ nm ++ ats ++ [47; 62]) \/
   (content <> [] /\ exists body wsc indent' inline',
      blanks wsc /\ ItemsSer indent' inline' content body /\
      (Forall (fun c => is_text c = false) content \/ (inline' = true /\ wsc = [] /\ no_adjacent content)) /\
      bytes = ws ++ [60] ++ nm ++ ats ++ [62] ++ body ++ closing wsc nm).
 Proof.
-  intros TS SA CM SH SB. cbv zeta. rewrite ser_elem_eq, TS, SA in SB. cbn [unwrap bind] in SB. cbv zeta in SB. cbn [comment_part app] in SB.
+  intros TS SA CM SH SB. cbv zeta. rewrite ser_elem_eq, TS, SA in SB. cbn [unwrap bind] in SB. cbv zeta in SB.
   destruct content as [|first rest].
   - left. injection SB as <-. split; reflexivity.
   - right. split; [discriminate|]. remember (first :: rest) as content eqn:EC.
@@ -689,11 +744,21 @@ Proof.
 Qed.
 
 (* a serialized canonical tree is at least as long as it is deep and wide *)
+Lemma elem_bytes_cost c indent inline bytes : Canon c -> SER c indent inline = Val bytes -> (cost (inl c) <= List.length bytes)%nat.
+Proof.
+  intros CA SB. destruct CA as [name ty attrs content cm nm mode named CMO (TS & CN & FB) [AF AREQ] CM SH CK NV NAMED].
+  destruct (ser_attrs_total T tab_at tab_en check_fn float_fmt float_parse ver ty attrs AF) as (ats & SA & _ & _).
+  destruct (clean_name_props nm CN) as (NE & _).
+  assert (L1 : (1 <= List.length nm)%nat) by (destruct nm; [congruence|cbn; lia]).
+  destruct (ser_shape name ty attrs content cm nm mode ats indent inline bytes TS SA CM SH SB) as [[_ ->]|(_ & body & wsc & i' & il' & _ & _ & _ & ->)];
+    cbn [cost e_comment]; destruct cm; repeat (rewrite app_length || cbn [List.length]); lia.
+Qed.
+
 Lemma items_size i' il' ty mode : forall l prev pre bs,
   (forall c0 b0, In (inl c0) l -> Canon c0 -> SER c0 i' il' = Val b0 ->
      (depth c0 <= List.length b0)%nat /\ (width c0 <= List.length b0)%nat) ->
   ChildrenOk ty mode prev pre l -> ItemsSer i' il' l bs ->
-  (maxd l <= List.length bs)%nat /\ (maxw l <= List.length bs)%nat /\ (List.length l <= List.length bs)%nat.
+  (maxd l <= List.length bs)%nat /\ (maxw l <= List.length bs)%nat /\ (lcost l <= List.length bs)%nat.
 Proof.
   induction l as [|item l IHl]; intros prev pre bs SZ CK0 IS0.
   - cbn. lia.
@@ -701,13 +766,13 @@ Proof.
     + inversion IS0 as [|? ? b0 bs0 SB0 IS1|]; subst.
       destruct (SZ c0 b0 (or_introl eq_refl) CA0 SB0) as [D0 W0].
       destruct (IHl _ _ bs0 ltac:(intros c1 b1 H1; apply SZ; right; exact H1) CK1 IS1) as (A & B & C).
-      assert (1 <= List.length b0)%nat by (destruct c0; rewrite depth_node in D0; lia).
-      cbn [maxd maxw List.length]. rewrite app_length. lia.
+      assert (cost (inl c0) <= List.length b0)%nat by (apply (elem_bytes_cost c0 i' il' b0 CA0 SB0)).
+      cbn [maxd maxw lcost]. rewrite app_length. lia.
     + inversion IS0 as [| |? ? vb0 bs0 SV0 IS1]; subst.
       destruct (IHl _ _ bs0 ltac:(intros c1 b1 H1; apply SZ; right; exact H1) CK1 IS1) as (A & B & C).
       destruct TO0 as (cs & vb' & isr & _ & _ & _ & SV' & _ & NW). rewrite SV0 in SV'. injection SV' as <-.
       assert (1 <= List.length vb0)%nat by (destruct vb0; [discriminate NW|cbn; lia]).
-      cbn [maxd maxw List.length]. rewrite app_length. lia.
+      cbn [maxd maxw lcost cost]. rewrite app_length. lia.
 Qed.
 
 Lemma canon_size : forall d c, (depth c <= d)%nat -> Canon c -> forall indent inline bytes, SER c indent inline = Val bytes ->
@@ -715,11 +780,11 @@ Lemma canon_size : forall d c, (depth c <= d)%nat -> Canon c -> forall indent in
 Proof.
   induction d as [|d IH]; intros c DC CA indent inline bytes SB.
   { destruct c. rewrite depth_node in DC. lia. }
-  destruct CA as [name ty attrs content nm mode named (TS & CN & FB) [AF AREQ] CM SH CK NV NAMED].
+  destruct CA as [name ty attrs content cm nm mode named CMO (TS & CN & FB) [AF AREQ] CM SH CK NV NAMED].
   destruct (ser_attrs_total T tab_at tab_en check_fn float_fmt float_parse ver ty attrs AF) as (ats & SA & _ & _).
   rewrite depth_node in *. rewrite width_node.
-  destruct (ser_shape name ty attrs content nm mode ats indent inline bytes TS SA CM SH SB) as [[-> ->]|(NE & body & wsc & i' & il' & _ & IS & _ & ->)].
-  - cbn [maxd maxw List.length]. repeat (rewrite app_length || cbn [List.length]). lia.
+  destruct (ser_shape name ty attrs content cm nm mode ats indent inline bytes TS SA CM SH SB) as [[-> ->]|(NE & body & wsc & i' & il' & _ & IS & _ & ->)].
+  - cbn [maxd maxw lcost]. repeat (rewrite app_length || cbn [List.length]). lia.
   - destruct (items_size i' il' ty mode content [] [] body) as (A & B & C); [|exact CK|exact IS|].
     + intros c0 b0 H0 CA0 SB0. apply (IH c0 ltac:(pose proof (maxd_in _ _ H0); lia) CA0 i' il' b0 SB0).
     + unfold closing. repeat (rewrite app_length || cbn [List.length]). lia.
